@@ -285,6 +285,9 @@ def custom_tc(rng, idx):
         else:
             ex_sym = ex[0]
             ex_bin = ex[1] in (OT.BINARY_LEFT_ASSOCIATIVE, OT.BINARY_RIGHT_ASSOCIATIVE)
+        if rng.random() < 0.4:
+            f.create()                 # a factory that already produced engines keeps accepting table edits
+            build.append(['create'])
         f.insert_operator(ex_sym, ex_bin, sym, typ, create_group, alias)
         build.append([ex_sym, ex_bin, sym, typ, create_group, alias])
         rec_ = (sym, typ, alias)
@@ -457,6 +460,9 @@ def replay(data, rec):
     else:
         f = yaql.YaqlFactory()
         for b in data['build']:
+            if b == ['create']:
+                f.create()
+                continue
             f.insert_operator(*b)
         tc = TableCase(name, f)
         recs = [tuple(r) for r in data['records']]
